@@ -62,7 +62,9 @@ def run_tlc(module: str, cfg: str, *, workers: int | str = "auto", extra_files: 
         with open(os.path.join(sd, name), "w") as fp:
             fp.write(text)
     meta = os.path.join(sd, "meta")
-    cmd = ["java", "-XX:+UseParallelGC", "-Xmx12g"] + (java_opts or []) + [
+    if workers == "auto" and os.environ.get("VERIF_TLC_WORKERS"):
+        workers = os.environ["VERIF_TLC_WORKERS"]
+    cmd = ["java", "-XX:+UseParallelGC", "-Xmx" + os.environ.get("VERIF_TLC_XMX", "10g")] + (java_opts or []) + [
         "-cp", JAR + ":" + DEPS, "tlc2.TLC", "-workers", str(workers), "-metadir", meta,
         "-noGenerateSpecTE", "-config", cfg]
     if dump:
